@@ -259,6 +259,7 @@ def check(ctx):
     from rules.norm import Norm as _Nd
     nmd = _Nd(gc, inline=False, env={'__targs__': 1})
     disc_found = []
+    disc_skipped = []
     pair = True
     for n in gc.all_nodes():
         if n['k'] != 'IfStmt':
@@ -276,12 +277,40 @@ def check(ctx):
                 if not m1 or not m2 or not a_[2]:
                     pair = False
                     continue
+                extra = [b_ for b_ in alt if b_ is not a_]
+                if extra:
+                    # the look-up is made only under a further condition: decided per kind of the piece that leaves the square and
+                    # promotion piece. A piece uncovers a line only of a kind it does not move along itself (else it would be giving
+                    # check before the move); what leaves the square of a promotion is a pawn, whatever it becomes.
+                    from rules.norm import Norm as _Nx, cond_value as _cvx, Unknown as _Ux
+                    kdm = [x for x in gc.all_nodes() if x['k'] == 'VarDecl' and kids(x) and
+                           _Nx(gc, env={'__targs__': 1}).s(kids(x)[0]) == 'make_piece_kind(piece_at(from(move)))']
+                    nmx = _Nx(gc, env={'__targs__': 1})
+                    line_kind = m1.group(1)
+                    ax = [b_ for alt_ in nmx.disj(kids(n)[0]) for b_ in alt_ if b_[0] == 'truthy' and 'slider_attack<' in str(b_[1])]
+                    if len(ax) != 1:
+                        raise AnalysisBroken('C15: the discovered-check test at %s has more than one slider look-up' % gc.loc(n))
+                    for k_ in range(kdk['PAWN'], kdk['KING'] + 1):
+                        for pk_ in ([0, kdk['KNIGHT'], kdk['BISHOP'], kdk['ROOK'], kdk['QUEEN']] if k_ == kdk['PAWN'] else [0]):
+                            val = {'make_piece_kind(piece_at(from(move)))': k_, 'promotion(move)': pk_, ax[0]: True}
+                            nmx.val = val
+                            try:
+                                made = _cvx(nmx, kids(n)[0], val)
+                            except _Ux as u_:
+                                raise AnalysisBroken('C15: the discovered-check test at %s is made only when `%s` holds, which the rule '
+                                                     'cannot evaluate per piece kind (%s)' % (gc.loc(n), ' && '.join(' '.join(map(str, b_)) for b_ in extra)[:160], u_))
+                            along = (kdk['BISHOP'], kdk['QUEEN']) if line_kind == 'BISHOP' else (kdk['ROOK'], kdk['QUEEN'])
+                            if k_ not in along and not made:
+                                disc_skipped.append('%s leaving its square%s: the %s look-up from the enemy king is skipped' % (
+                                    [q for q, v in kdk.items() if v == k_][0], '' if not pk_ else ' to promote to ' + [q for q, v in kdk.items() if v == pk_][0],
+                                    'diagonal' if line_kind == 'BISHOP' else 'file/rank'))
                 kname = {kdk['BISHOP']: 'BISHOP', kdk['ROOK']: 'ROOK'}.get(int(m2.group(1)))
                 disc_found.append((m1.group(1), kname))
                 pair = pair and m1.group(1) == kname and kname in ('BISHOP', 'ROOK')
     okd = len(disc_found) >= 4 and {k_ for k_, _ in disc_found} == {'BISHOP', 'ROOK'}
-    ctx.ob('C15.R4.discovered', 'move_gives_check', okd and pair,
-           'discovered checks look from the enemy king along diagonals for own bishops/queens and along lines for own rooks/queens', site=gc.loc())
+    ctx.ob('C15.R4.discovered', 'move_gives_check', okd and pair and not disc_skipped,
+           'discovered checks look from the enemy king along diagonals for own bishops/queens and along lines for own rooks/queens, '
+           'for every kind of piece that can uncover such a line%s' % ('' if not disc_skipped else ' — ' + '; '.join(disc_skipped[:3])), site=gc.loc())
     # castling arm, per colour and wing on normal forms: the rook on its destination square attacks the enemy king on the occupancy
     # with king and rook moved
     from rules.norm import Norm as _Nm, decision as _dec, Unknown as _Unk
